@@ -81,6 +81,18 @@ func retErrIsNil(r *ssa.Return) (isNil, known bool) {
 				all = false
 			}
 		case *ssa.MakeInterface, *ssa.Alloc:
+		case *ssa.UnOp:
+			// a package-level sentinel error (var errX = errors.New(...)): non-nil by construction
+			if g, ok := x.X.(*ssa.Global); !ok || !sentinelInitialised(g) {
+				// an error received from a callee under the edge on which it is known non-nil
+				if !errKnownNonNil(x, r) {
+					all = false
+				}
+			}
+		case *ssa.Extract:
+			if !errKnownNonNil(x, r) {
+				all = false
+			}
 		default:
 			all = false
 		}
@@ -89,6 +101,38 @@ func retErrIsNil(r *ssa.Return) (isNil, known bool) {
 		return false, true
 	}
 	return false, false
+}
+
+// sentinelInitialised: the global is assigned exactly once, in its package's init, from an error constructor.
+func sentinelInitialised(g *ssa.Global) bool {
+	if g.Pkg == nil {
+		return false
+	}
+	n, ok := 0, false
+	for _, f := range PkgFuncs(g.Pkg) {
+		EachInstr(f, func(in ssa.Instruction) {
+			st, isSt := in.(*ssa.Store)
+			if !isSt || st.Addr != ssa.Value(g) {
+				return
+			}
+			n++
+			if cl, _ := CallOfValue(st.Val); cl != nil && f.Name() == "init" &&
+				(MatchCC(&cl.Call, ErrWrappers...) || MatchCC(&cl.Call, Spec{"errors", "", "New"}, Spec{"github.com/pkg/errors", "", "New"}, Spec{"github.com/pkg/errors", "", "Errorf"})) {
+				ok = true
+			}
+		})
+	}
+	return n == 1 && ok
+}
+
+// errKnownNonNil: the comparisons dominating the return say v != nil.
+func errKnownNonNil(v ssa.Value, at ssa.Instruction) bool {
+	for _, f := range CmpFactsAt(at) {
+		if f.Op == token.NEQ && (f.X == v && IsNilConst(f.Y) || f.Y == v && IsNilConst(f.X)) {
+			return true
+		}
+	}
+	return false
 }
 
 func runC10(c *Ctx) {
